@@ -1,0 +1,214 @@
+//go:build verif
+
+package jws
+
+// Machine-checked contracts for package signature/jws (checked by /verif/govc; comment-only file).
+// Properties C01, C02, C07, C08, C13, C16, C20 (JWS format level).
+
+//@ import "crypto/x509"
+//@ import "time"
+//@ import "strings"
+//@ import "github.com/notaryproject/notation-core-go/signature"
+//@ import "github.com/notaryproject/notation-core-go/internal/algorithm"
+
+// ---- C02: the JWS algorithm tables (proved on the package initialiser, assumed elsewhere; no function stores to them)
+//@ global-invariant [names] ps256 == "PS256" && ps384 == "PS384" && ps512 == "PS512" && es256 == "ES256" && es384 == "ES384" && es512 == "ES512"
+//@ global-invariant [valid-methods] len(validMethods) == 6 && validMethods[0] == "PS256" && validMethods[1] == "PS384" && validMethods[2] == "PS512" && validMethods[3] == "ES256" && validMethods[4] == "ES384" && validMethods[5] == "ES512"
+//@ global-invariant [header-keys] len(headerKeys) == 7 && headerKeys[0] == "alg" && headerKeys[1] == "cty" && headerKeys[2] == "crit" && headerKeys[3] == "io.cncf.notary.expiry" && headerKeys[4] == "io.cncf.notary.signingTime" && headerKeys[5] == "io.cncf.notary.signingScheme" && headerKeys[6] == "io.cncf.notary.authenticSigningTime"
+//@ global-invariant [alg-to-name] signatureAlgJWSAlgMap != nil && (forall a signature.Algorithm :: has(signatureAlgJWSAlgMap, a) <==> (1 <= a && a <= 6)) && signatureAlgJWSAlgMap[1] == "PS256" && signatureAlgJWSAlgMap[2] == "PS384" && signatureAlgJWSAlgMap[3] == "PS512" && signatureAlgJWSAlgMap[4] == "ES256" && signatureAlgJWSAlgMap[5] == "ES384" && signatureAlgJWSAlgMap[6] == "ES512"
+//@ global-invariant [name-to-alg] jwsAlgSignatureAlgMap != nil && (forall s string :: has(jwsAlgSignatureAlgMap, s) <==> IsJWSAlgName(s)) && jwsAlgSignatureAlgMap["PS256"] == 1 && jwsAlgSignatureAlgMap["PS384"] == 2 && jwsAlgSignatureAlgMap["PS512"] == 3 && jwsAlgSignatureAlgMap["ES256"] == 4 && jwsAlgSignatureAlgMap["ES384"] == 5 && jwsAlgSignatureAlgMap["ES512"] == 6
+
+// stmt C02: "Only the six approved algorithms"
+//@ stmt spec func IsJWSAlgName(s string) bool { s == "PS256" || s == "PS384" || s == "PS512" || s == "ES256" || s == "ES384" || s == "ES512" }
+//@ stmt spec func JWSNameOf(a signature.Algorithm) string {
+//@     if a == 1 then "PS256" else if a == 2 then "PS384" else if a == 3 then "PS512" else if a == 4 then "ES256" else if a == 5 then "ES384" else if a == 6 then "ES512" else "" }
+
+//@ func reverseMap(m)
+//@   requires m != nil
+//@   requires forall a signature.Algorithm, b signature.Algorithm :: has(m, a) && has(m, b) && a != b ==> m[a] != m[b]
+//@   ensures [fresh] result != nil && fresh(result)
+//@   ensures [keys] forall s string :: has(result, s) <==> (exists a signature.Algorithm :: has(m, a) && m[a] == s)
+//@   ensures [values] forall a signature.Algorithm :: has(m, a) ==> result[m[a]] == a
+//@   loop 0
+//@     invariant n != nil && fresh(n)
+//@     invariant forall s string :: has(n, s) <==> (exists a signature.Algorithm :: visited[a] && has(m, a) && m[a] == s)
+//@     invariant forall a signature.Algorithm :: visited[a] && has(m, a) ==> n[m[a]] == a
+
+//@ func getSignatureAlgorithm(alg)
+//@   ensures [iff] err == nil <==> IsJWSAlgName(alg)
+//@   ensures [table] err == nil ==> 1 <= result && result <= 6 && JWSNameOf(result) == alg
+//@   ensures [zero] err != nil ==> result == 0 && typeof(err) == type(*signature.UnsupportedSignatureAlgoError)
+//@   pure
+
+//@ func contains(s, e)
+//@   ensures [iff] result <==> (exists k :: 0 <= k && k < len(s) && s[k] == e)
+//@   loop 0
+//@     invariant forall k :: 0 <= k && k < it ==> s[k] != e
+//@   pure
+
+//@ func isHeaderKey(key)
+//@   ensures [iff] result <==> IsSpecHeader(key)
+//@   loop 0
+//@     invariant forall k :: 0 <= k && k < it ==> headerKeys[k] != key
+//@   pure
+//@ func isHeaderKeyCaseVariant(key)
+//@   ensures [iff] result <==> (exists k :: 0 <= k && k < 7 && key != headerKeys[k] && strings.EqualFold(key, headerKeys[k]))
+//@   loop 0
+//@     invariant forall k :: 0 <= k && k < it ==> !(key != headerKeys[k] && strings.EqualFold(key, headerKeys[k]))
+//@   pure
+
+// stmt C13: the headers "defined by the envelope specification" (JWS)
+//@ stmt spec func IsSpecHeader(k string) bool {
+//@     k == "alg" || k == "cty" || k == "crit" || k == "io.cncf.notary.expiry" || k == "io.cncf.notary.signingTime" || k == "io.cncf.notary.signingScheme" || k == "io.cncf.notary.authenticSigningTime" }
+
+// stmt C13: "the extended attributes are exactly the protected headers that are not defined by the envelope
+// specification - each once, with its key, its value unchanged, and flagged critical if and only if the signer
+// listed it as critical" (attrs is the exact-key decode of the protected header minus the specification headers)
+//@ stmt spec func ExtAttrsOf(out []signature.Attribute, attrs map[string]interface{}, critical []string) bool {
+//@     (forall i :: 0 <= i && i < len(out) ==> typeof(out[i].Key) == type(string) && has(attrs, unbox(out[i].Key, type(string))) &&
+//@          out[i].Value == attrs[unbox(out[i].Key, type(string))] && (out[i].Critical <==> contains$(critical, unbox(out[i].Key, type(string))))) &&
+//@     (forall k string :: has(attrs, k) ==> (exists i :: 0 <= i && i < len(out) && out[i].Key == box(k))) &&
+//@     (forall i, j :: 0 <= i && i < j && j < len(out) ==> out[i].Key != out[j].Key) }
+
+//@ func getExtendedAttributes(attrs, critical)
+//@   ensures [exact] fresh(result) && ExtAttrsOf(result, attrs, critical)
+//@   loop 0
+//@     invariant fresh(extendedAttr)
+//@     invariant forall i :: 0 <= i && i < len(extendedAttr) ==> typeof(extendedAttr[i].Key) == type(string) && visited[unbox(extendedAttr[i].Key, type(string))] && has(attrs, unbox(extendedAttr[i].Key, type(string))) && extendedAttr[i].Value == attrs[unbox(extendedAttr[i].Key, type(string))] && (extendedAttr[i].Critical <==> contains$(critical, unbox(extendedAttr[i].Key, type(string))))
+//@     invariant forall k string :: visited[k] && has(attrs, k) ==> (exists i :: 0 <= i && i < len(extendedAttr) && extendedAttr[i].Key == box(k))
+//@     invariant forall i, j :: 0 <= i && i < j && j < len(extendedAttr) ==> extendedAttr[i].Key != extendedAttr[j].Key
+
+// stmt C07 (JWS rule set on a decoded header)
+//@ stmt spec func SchemeRules(h *jwsProtectedHeader) bool {
+//@     (h.SigningScheme == signature.SigningSchemeX509 && h.AuthenticSigningTime == nil) ||
+//@     (h.SigningScheme == signature.SigningSchemeX509SigningAuthority && h.SigningTime == nil && h.AuthenticSigningTime != nil) }
+//@ stmt spec func RequiredCrit(h *jwsProtectedHeader, s string) bool {
+//@     s == "io.cncf.notary.signingScheme" || (s == "io.cncf.notary.expiry" && h.Expiry != nil && !(*h.Expiry).IsZero()) ||
+//@     (s == "io.cncf.notary.authenticSigningTime" && h.SigningScheme == signature.SigningSchemeX509SigningAuthority) }
+// every required label is listed; every listed label is a required label (at its first occurrence) or a present extended attribute
+//@ stmt spec func CritRules(h *jwsProtectedHeader) bool {
+//@     len(h.Critical) > 0 &&
+//@     contains$(h.Critical, "io.cncf.notary.signingScheme") &&
+//@     ((h.Expiry != nil && !(*h.Expiry).IsZero()) ==> contains$(h.Critical, "io.cncf.notary.expiry")) &&
+//@     (h.SigningScheme == signature.SigningSchemeX509SigningAuthority ==> contains$(h.Critical, "io.cncf.notary.authenticSigningTime")) &&
+//@     (forall k :: 0 <= k && k < len(h.Critical) ==> (RequiredCrit(h, h.Critical[k]) && (forall j :: 0 <= j && j < k ==> h.Critical[j] != h.Critical[k])) || has(h.ExtendedAttributes, h.Critical[k])) }
+
+//@ func validateCriticalHeaders(protectedHeader)
+//@   requires protectedHeader != nil
+//@   ensures [accept=>rules] result == nil ==> CritRules(protectedHeader)
+//@   ensures [rules=>accept] CritRules(protectedHeader) ==> result == nil
+//@   loop 0
+//@     invariant mustMarkedCrit != nil && fresh(mustMarkedCrit)
+//@     invariant forall s string :: has(mustMarkedCrit, s) <==> (RequiredCrit(protectedHeader, s) && (forall j :: 0 <= j && j < it ==> protectedHeader.Critical[j] != s))
+//@     invariant forall k :: 0 <= k && k < it ==> (RequiredCrit(protectedHeader, protectedHeader.Critical[k]) && (forall j :: 0 <= j && j < k ==> protectedHeader.Critical[j] != protectedHeader.Critical[k])) || has(protectedHeader.ExtendedAttributes, protectedHeader.Critical[k])
+//@   loop 1
+//@     invariant true
+
+//@ func validateProtectedHeaders(protectedHeader)
+//@   requires protectedHeader != nil
+//@   ensures [accept=>rules] result == nil ==> SchemeRules(protectedHeader) && CritRules(protectedHeader)
+//@   ensures [rules=>accept] (SchemeRules(protectedHeader) && CritRules(protectedHeader)) ==> result == nil
+
+//@ func compactJWS(envelope)
+//@   requires envelope != nil
+//@   ensures [join] result == JoinDot3(envelope.Protected, envelope.Payload, envelope.Signature)
+//@   pure
+
+// ================= read path: parse, verify, content
+
+//@ import "encoding/base64"
+//@ import jwt "github.com/golang-jwt/jwt/v4"
+//@ import nx509 "github.com/notaryproject/notation-core-go/x509"
+
+//@ spec func B64(s string) []byte { base64.RawURLEncoding.DecodeString(s).result0 }
+//@ spec func B64OK(s string) bool { base64.RawURLEncoding.DecodeString(s).err == nil }
+
+// stmt C07/C13: what a successfully parsed protected header is, in terms of the bytes that were signed
+// (raw = base64url-decoded protected part): struct fields are the field decode, extended attributes are exactly the
+// exact-name members that are not specification headers, no member is a case variant of a specification header
+//@ stmt spec func HeaderOf(h *jwsProtectedHeader, raw []byte) bool {
+//@     JHdrOK(raw) && JMapOK(raw) && JNoCaseVariants(raw) &&
+//@     h.Algorithm == JHdr(raw).Algorithm && h.ContentType == JHdr(raw).ContentType && h.Critical == JHdr(raw).Critical &&
+//@     h.Expiry == JHdr(raw).Expiry && h.SigningScheme == JHdr(raw).SigningScheme && h.SigningTime == JHdr(raw).SigningTime &&
+//@     h.AuthenticSigningTime == JHdr(raw).AuthenticSigningTime &&
+//@     (forall k string :: has(h.ExtendedAttributes, k) <==> (JKey(raw, k) && !IsSpecHeader(k))) &&
+//@     (forall k string :: has(h.ExtendedAttributes, k) ==> h.ExtendedAttributes[k] == JVal(raw, k)) }
+
+//@ func parseProtectedHeaders(encoded)
+//@   ensures [err] err != nil ==> result == nil && typeof(err) == type(*signature.InvalidSignatureError)
+//@   ensures [ok] err == nil ==> result != nil && fresh(result) && B64OK(encoded) && HeaderOf(result, B64(encoded))
+//@   loop 0
+//@     invariant protected.ExtendedAttributes != nil ==> (forall k string :: visited[k] && has(protected.ExtendedAttributes, k) ==> !isHeaderKeyCaseVariant$(k))
+//@   loop 1
+//@     invariant forall k string :: has(protected.ExtendedAttributes, k) <==> (JKey(B64(encoded), k) && (forall j :: 0 <= j && j < it ==> headerKeys[j] != k))
+//@     invariant forall k string :: has(protected.ExtendedAttributes, k) ==> protected.ExtendedAttributes[k] == JVal(B64(encoded), k)
+
+// stmt C07 (JWS): the content rules on a decoded header, and what lands in the signer info
+//@ stmt spec func SignedAttrsOf(info *signature.SignerInfo, h *jwsProtectedHeader) bool {
+//@     info.SignedAttributes.SigningScheme == h.SigningScheme &&
+//@     (h.SigningScheme == signature.SigningSchemeX509 || h.SigningScheme == signature.SigningSchemeX509SigningAuthority) &&
+//@     (h.SigningScheme == signature.SigningSchemeX509 ==> (h.SigningTime != nil ==> info.SignedAttributes.SigningTime == *h.SigningTime)) &&
+//@     (h.SigningScheme == signature.SigningSchemeX509SigningAuthority ==> info.SignedAttributes.SigningTime == *h.AuthenticSigningTime) &&
+//@     (h.Expiry != nil ==> info.SignedAttributes.Expiry == *h.Expiry) &&
+//@     IsJWSAlgName(h.Algorithm) && JWSNameOf(info.SignatureAlgorithm) == h.Algorithm && 1 <= info.SignatureAlgorithm && info.SignatureAlgorithm <= 6 &&
+//@     ExtAttrsOf(info.SignedAttributes.ExtendedAttributes, h.ExtendedAttributes, h.Critical) }
+
+//@ func populateProtectedHeaders(protectedHeader, signerInfo)
+//@   requires protectedHeader != nil && signerInfo != nil
+//@   modifies signerInfo.SignatureAlgorithm, signerInfo.SignedAttributes
+//@   ensures [accept=>rules] result == nil ==> SchemeRules(protectedHeader) && CritRules(protectedHeader) && SignedAttrsOf(signerInfo, protectedHeader)
+//@   ensures [rules=>accept] (SchemeRules(protectedHeader) && CritRules(protectedHeader) && IsJWSAlgName(protectedHeader.Algorithm)) ==> result == nil
+//@   ensures [frame] signerInfo.Signature == old(signerInfo.Signature) && signerInfo.CertificateChain == old(signerInfo.CertificateChain) && signerInfo.UnsignedAttributes == old(signerInfo.UnsignedAttributes)
+
+// stmt C01/C02 (JWS): the signature over the carried 'protected.payload' verifies under the given key with one of the
+// six methods, the one named by the exact "alg" member
+//@ func verifyJWT(tokenString, publicKey)
+//@   ensures [ok=>verified] result == nil ==> JWTParsedOK(tokenString, publicKey, validMethods)
+//@   ensures [typed] result != nil ==> typeof(result) == type(*signature.SignatureIntegrityError)
+
+//@ func (*envelope).payload(e, protected)
+//@   requires e != nil && e.base != nil && protected != nil
+//@   ensures [ok] err == nil ==> result != nil && fresh(result) && B64OK(e.base.Payload) && result.Content == B64(e.base.Payload) && result.ContentType == protected.ContentType
+//@   ensures [err] err != nil ==> result == nil
+
+//@ stmt spec func ChainOf(certs []*x509.Certificate, raws [][]byte) bool {
+//@     len(certs) == len(raws) && (forall k :: 0 <= k && k < len(raws) ==> x509.ParseCertificate(raws[k]).err == nil && certs[k] == x509.ParseCertificate(raws[k]).result0) }
+
+//@ func (*envelope).signerInfo(e, protected)
+//@   requires e != nil && e.base != nil && protected != nil
+//@   ensures [err] err != nil ==> result == nil
+//@   ensures [ok=>header-rules] err == nil ==> result != nil && fresh(result) && SchemeRules(protected) && CritRules(protected) && SignedAttrsOf(result, protected)
+//@   ensures [ok=>signature] err == nil ==> B64OK(e.base.Signature) && result.Signature == B64(e.base.Signature) && len(result.Signature) > 0
+//@   ensures [ok=>chain] err == nil ==> ChainOf(result.CertificateChain, e.base.Header.CertChain) && nx509.ChainInput(result.CertificateChain)
+//@   ensures [ok=>unsigned] err == nil ==> result.UnsignedAttributes.SigningAgent == e.base.Header.SigningAgent && result.UnsignedAttributes.TimestampSignature == e.base.Header.TimestampSignature
+//@   loop 0
+//@     invariant len(certs) == it && (it > 0 ==> fresh(certs))
+//@     invariant forall k :: 0 <= k && k < it ==> x509.ParseCertificate(e.base.Header.CertChain[k]).err == nil && certs[k] == x509.ParseCertificate(e.base.Header.CertChain[k]).result0 && certs[k] != nil && nx509.ParsedCert(certs[k])
+
+// stmt C01/C07/C13 (JWS): content is a decoding of exactly the carried protected header and payload
+//@ stmt spec func JWSContentOf(c *signature.EnvelopeContent, m *jwsEnvelope) bool {
+//@     B64OK(m.Protected) && B64OK(m.Payload) && B64OK(m.Signature) &&
+//@     c.Payload.Content == B64(m.Payload) && c.Payload.ContentType == JHdr(B64(m.Protected)).ContentType &&
+//@     c.SignerInfo.Signature == B64(m.Signature) && len(c.SignerInfo.Signature) > 0 &&
+//@     ChainOf(c.SignerInfo.CertificateChain, m.Header.CertChain) &&
+//@     c.SignerInfo.UnsignedAttributes.SigningAgent == m.Header.SigningAgent && c.SignerInfo.UnsignedAttributes.TimestampSignature == m.Header.TimestampSignature &&
+//@     (exists h *jwsProtectedHeader :: HeaderOf(h, B64(m.Protected)) && SchemeRules(h) && CritRules(h) && SignedAttrsOf(fieldptr(c, SignerInfo), h)) }
+
+//@ func (*envelope).Content(e)
+//@   props C01 C07 C13
+//@   requires e != nil
+//@   ensures [none] e.base == nil ==> result == nil && typeof(err) == type(*signature.SignatureEnvelopeNotFoundError)
+//@   ensures [err] err != nil ==> result == nil
+//@   ensures [ok] err == nil ==> e.base != nil && result != nil && fresh(result) && JWSContentOf(result, e.base) && nx509.ChainInput(result.SignerInfo.CertificateChain)
+//@   ensures [ok=>crit-present] err == nil ==> (exists h *jwsProtectedHeader :: HeaderOf(h, B64(e.base.Protected)) && (forall k :: 0 <= k && k < len(h.Critical) ==> JKey(B64(e.base.Protected), h.Critical[k])))
+
+// stmt C01 (JWS): verification succeeds only if the carried compact token verifies under the leaf key
+//@ func (*envelope).Verify(e)
+//@   props C01 C02
+//@   requires e != nil
+//@   ensures [none] e.base == nil ==> result == nil && typeof(err) == type(*signature.SignatureEnvelopeNotFoundError)
+//@   ensures [err] err != nil ==> result == nil
+//@   ensures [ok=>integrity] err == nil ==> e.base != nil && len(e.base.Header.CertChain) > 0 && x509.ParseCertificate(e.base.Header.CertChain[0]).err == nil && JWTParsedOK(JoinDot3(e.base.Protected, e.base.Payload, e.base.Signature), x509.ParseCertificate(e.base.Header.CertChain[0]).result0.PublicKey, validMethods)
+//@   ensures [ok=>content] err == nil ==> result != nil && fresh(result) && JWSContentOf(result, e.base) && nx509.ChainInput(result.SignerInfo.CertificateChain) && result.SignerInfo.CertificateChain[0] == x509.ParseCertificate(e.base.Header.CertChain[0]).result0
+// stmt C02 binding: the algorithm the signature was checked under is the reported one
+//@   ensures [ok=>alg-binding] err == nil ==> JWTAlg(JoinDot3(e.base.Protected, e.base.Payload, e.base.Signature)) == JWSNameOf(result.SignerInfo.SignatureAlgorithm)
